@@ -20,7 +20,7 @@ PROPERTY = "C03"
 LEVEL = "model_checking"
 RULE = (
     "U-PROB problems incl. the metric slot (levels 0,1 complete; level 2 = core pairs containing "
-    "metric, or {goal,init}, or {goal,undef} in quick, all core pairs in thorough); per problem the full plan tree of "
+    "metric, or {goal,init}, or {goal,undef} in quick, all core pairs in thorough) plus the 24 problems of the family zerob (types bounded by exactly 0 or on one side only, crossed by inc/dec/assign of an unbounded fluent); per problem the full plan tree of "
     "all sequences of length 0..k over all ground actions; states = plan-tree nodes, transitions = "
     "plan steps; non-trivial plan = VALID, or INVALID for a reason other than a false precondition "
     "of its first step"
@@ -51,7 +51,7 @@ def _ids(tier):
                 if "metric" not in names and names != {"goal", "init"} and names != {"undef", "goal"}:
                     continue
             out.append((level, cid))
-    return out
+    return out + uprob.zerob_ids()
 
 
 def shards(tier, seed):
